@@ -34,6 +34,9 @@ type Runner struct {
 	Sep time.Duration
 	// Ctx, if set, is the request context used by Exec (fault injection)
 	Ctx context.Context
+	// Bare: no harness queries and no separator pause after the call (used when
+	// the call runs as a scheduler thread)
+	Bare bool
 }
 
 func errCode(err error) string {
@@ -169,7 +172,7 @@ func (r *Runner) Exec(c model.Call) model.Obs {
 		}
 	case "pull":
 		var resp *pubsubpb.PullResponse
-		resp, err = w.Sub.Pull(ctx, &pubsubpb.PullRequest{Subscription: model.SubPath(c.Op.Sub), MaxMessages: int32(c.Op.Max), ReturnImmediately: true})
+		resp, err = w.Sub.Pull(ctx, &pubsubpb.PullRequest{Subscription: model.SubPath(c.Op.Sub), MaxMessages: int32(c.Op.Max), ReturnImmediately: c.Op.Tgt != "wait"})
 		if err == nil {
 			for _, rm := range resp.ReceivedMessages {
 				m := model.RecvMsg{AckID: rm.AckId, Attempt: int(rm.DeliveryAttempt)}
@@ -314,6 +317,9 @@ func (r *Runner) Exec(c model.Call) model.Obs {
 	}
 	o.T1 = w.Now()
 	o.Err = errCode(err)
+	if r.Bare {
+		return o
+	}
 	o.Rows = r.rows()
 	r.liveViews(&o)
 	if r.Sep > 0 {
